@@ -23,6 +23,13 @@ func VH_C15_wildcard() {
 		}
 		mkObj(src+"/t", n, k, "s"+n, 1)
 	}
+	pat := v.Param("PAT", 0) // 0: "t/x*" (wildcard in the last component), 1: "t/*/k" (in a middle component)
+	if pat == 0 && findEntry(m.Snapshot(src), "t/y") != nil && findEntry(m.Snapshot(src), "t/y").Kind == m.KDir && v.Bool("nested-match") {
+		// a name matching the wildcard inside a directory that does not match it
+		m.MkFile(src+"/t/y/x3", []byte("n"), 0640, 1, 1, 9000000000)
+		m.SetMtime(src+"/t/y", 8000000000)
+		v.Cover("nested-match")
+	}
 	m.SetMtime(src+"/t", 7000000000)
 	for _, d := range []string{dstA, dstB} {
 		switch v.Choose("prior", 3) {
@@ -49,16 +56,29 @@ func VH_C15_wildcard() {
 		// wildcard copy resolved it once: the statement does not define that corner, so it is left out
 		v.Assume(!hasSymlinkMatch(src))
 	}
-	errA := Copy(context.Background(), src, "t/x*", dstA, dstArg, WithCopyInfo(ci))
+	wild := []string{"t/x*", "t/*/k"}[pat]
+	errA := Copy(context.Background(), src, wild, dstA, dstArg, WithCopyInfo(ci))
 	var errB error
 	nMatch := 0
-	for _, n := range []string{"x1", "x2"} {
-		if present[n] {
-			nMatch++
-			if e := Copy(context.Background(), src, "t/"+n, dstB, dstArg); e != nil && errB == nil {
-				errB = e
+	if pat == 0 {
+		for _, n := range []string{"x1", "x2"} {
+			if present[n] {
+				nMatch++
+				if e := Copy(context.Background(), src, "t/"+n, dstB, dstArg); e != nil && errB == nil {
+					errB = e
+				}
 			}
 		}
+	} else {
+		for _, n := range names {
+			if findEntry(m.Snapshot(src), "t/"+n+"/k") != nil {
+				nMatch++
+				if e := Copy(context.Background(), src, "t/"+n+"/k", dstB, dstArg); e != nil && errB == nil {
+					errB = e
+				}
+			}
+		}
+		v.Cover("middle-wildcard")
 	}
 	if nMatch == 0 {
 		v.Cover("no-match")
@@ -80,7 +100,9 @@ func VH_C15_wildcard() {
 		}
 		v.Assert(d.Kind == ref[i].Kind && string(d.Data) == string(ref[i].Data) && d.Target == ref[i].Target && d.Perm == ref[i].Perm && d.Uid == ref[i].Uid, "each entry of the union is the same as in the individual copy")
 	}
-	v.Assert(findEntry(after, "out/y") == nil && findEntry(after, "y") == nil, "an entry that does not match the wildcard is not copied")
+	if pat == 0 {
+		v.Assert(findEntry(after, "out/y") == nil && findEntry(after, "y") == nil, "an entry that does not match the wildcard is not copied")
+	}
 }
 
 func hasSymlinkMatch(src string) bool {
